@@ -15,7 +15,9 @@ fn md_index() -> u8 {
 fn scan_html(html: &str) -> (Vec<String>, BTreeSet<String>, Option<String>) {
     let tag = regex::Regex::new(r#"(?s)<(/?)a(\s[^>]*)?>"#).unwrap();
     let href = regex::Regex::new(r##"href="#([^"]*)""##).unwrap();
-    let id = regex::Regex::new(r#"\bid="([^"]*)""#).unwrap();
+    // only inside real tags: an anchor that ended up in escaped text (`&lt;a id="x"&gt;`, e.g.
+    // inside a code block) is not an anchor
+    let id = regex::Regex::new(r#"<[A-Za-z][^<>]*?\bid="([^"]*)""#).unwrap();
     let mut hrefs = vec![];
     let mut depth = 0i32;
     let mut nested = None;
